@@ -125,8 +125,9 @@ def strip_mtg(g):
     return {"nodes": g["nodes"], "edges": [[u, v, {k: x for k, x in a.items() if k != "is_mtg"}] for u, v, a in g["edges"]]}
 
 
-def run_query(I, st):
-    """-> (returned object(s) as a list of graphs or None, observable)"""
+def run_query(I, st, keyobjs=None):
+    """-> (returned object(s) as a list of graphs or None, observable).
+    keyobjs: {tuple(keys): list object}: one history passes the SAME list object for equal element_key values"""
     from synkit.Graph.ITS.its_decompose import get_rc
     from synkit.Graph.Context.radius_expand import RadiusExpand
     from ..tok import S
@@ -136,10 +137,11 @@ def run_query(I, st):
         return [r], X.obs_xits(r)
     if op == "rcx":
         _, keys, disc, keep, style = st
+        kl = list(keys) if keyobjs is None else keyobjs.setdefault(tuple(keys), list(keys))
         if style == "pos":
-            r = get_rc(I, list(keys), "order", "standard_order", disc, keep)
+            r = get_rc(I, kl, "order", "standard_order", disc, keep)
         else:
-            r = get_rc(I, keep_mtg=keep, disconnected=disc, element_key=list(keys))
+            r = get_rc(I, keep_mtg=keep, disconnected=disc, element_key=kl)
         return [r], X.obs_xits(r)
     if op == "k":
         r = RadiusExpand.extract_k(I, st[1])
@@ -211,11 +213,15 @@ def run_history(case, judge):
     vals, _final = values(case)
     I = E.to_nx(case["I"])
     obs, fails = [], []
+    keyobjs = {}
     results = []                 # per query: (list of returned graphs or None, deep-copied snapshot or None, mutated?)
     for i, (st, g) in enumerate(vals):
         if is_query(st):
-            ret, o = run_query(I, st)
+            ret, o = run_query(I, st, keyobjs)
             obs.append(o)
+            if judge and any(list(k) != v for k, v in keyobjs.items()):
+                fails.append(dict(clause="history-argument-mutated", detail="step %d %r changed the element_key list it was given: %r" % (i, st, keyobjs)))
+                keyobjs.clear()
             results.append([ret, copy.deepcopy(ret) if (judge and ret is not None) else None, False])
             if judge:
                 _, o_fresh = run_query(E.to_nx(g), st)
@@ -364,6 +370,23 @@ def gen_history(rng, base, flavour):
             push(pick_edit(rng, g, pc))
             push(["k", rng.choice((1, 1, 2))] if rng.random() < 0.6 else q_default(rng, allow_minus1=pc))
         push(q_default(rng, allow_minus1=pc))
+    elif flavour == "b3":                                 # rewiring: same centre, same node/edge counts, other distances
+        k = rng.choice((1, 1, 2))
+        q = [rng.choice(("k", "hk", "ctx", "nn")), k]
+        push(q)
+        es = _edges(g)
+        ids = [n for n, _ in g["nodes"]]
+        unchanged = [(u, v) for u, v, a in es if a["standard_order"] == 0]
+        non = [(x, y) for i, x in enumerate(ids) for y in ids[i + 1:] if not any({x, y} == {u, v} for u, v, _ in es)]
+        if unchanged and non:
+            u, v = rng.choice(unchanged)
+            x, y = rng.choice(non)
+            push(["del_edge", u, v])
+            push(["add_edge", x, y, 1, 1, 0])
+        else:
+            push(pick_edit(rng, g, True))
+        push(q)
+        push(["list", k, 2, 1])
     elif flavour == "c":                                  # non-default options first, then defaults; and the reverse
         if rng.random() < 0.5:
             es = _edges(g)
